@@ -36,6 +36,7 @@ void vshim_reset(void) {
 }
 void vshim_set_freeze(int64_t at, int torn) { g_freeze_at = at; g_torn = torn; g_frozen = 0; }
 void vshim_set_kill(int64_t at) { g_kill_at = at; }
+void vshim_clear_faults(void) { g_nfault = 0; }
 void vshim_add_fault(int64_t at, int kind) { if (g_nfault < MAXF) { g_fault_at[g_nfault] = at; g_fault_kind[g_nfault] = kind; g_nfault++; } }
 int64_t vshim_ordinal(void) { return g_ord; }
 int64_t vshim_lock_ordinal(void) { return g_lock_ord; }
